@@ -935,17 +935,27 @@ vdatetime.datetime = VDateTime
 vdatetime.date = VDate
 
 
+RANDOM_OVERRIDE = None  # set by pure (no-execution) checks that enumerate jitter values
+
+
+def _rand():
+    if RANDOM_OVERRIDE is not None:
+        return RANDOM_OVERRIDE
+    ex = core.CUR
+    return ex.random_value if ex is not None else 0.5
+
+
 class _VRandom(types.ModuleType):
     def __getattr__(self, name):
         return getattr(_rrandom, name)
 
     @staticmethod
     def random():
-        return _ex().random_value
+        return _rand()
 
     @staticmethod
     def uniform(a, b):
-        return a + (b - a) * _ex().random_value
+        return a + (b - a) * _rand()
 
 
 vrandom = _VRandom("random")
